@@ -268,3 +268,23 @@ def finish(ctx: Ctx, level: str = 'model_checking') -> int:
         # is the run reported as a harness problem
         return rc or 2
     return rc
+
+
+def _json_no_dup(pairs):
+    seen = set()
+    for k, _ in pairs:
+        if k in seen:
+            raise ValueError(f'duplicate key {k!r}')
+        seen.add(k)
+    return dict(pairs)
+
+
+def _json_no_constant(name):
+    raise ValueError(f'{name} is not a JSON value (RFC 8259 has no NaN / Infinity)')
+
+
+def strict_json(text: str):
+    """json.loads as RFC 8259 reads: no duplicate key inside an object, no NaN / Infinity / -Infinity tokens (Python's parser takes both)."""
+    import json
+
+    return json.loads(text, object_pairs_hook=_json_no_dup, parse_constant=_json_no_constant)
